@@ -29,7 +29,7 @@ class SweepStream(Stream):
         n = 200 if tier == "quick" else 3000
         out = []
         while len(out) < n:
-            t = paramlib.gen_tree(rng, rng.choice([1, 2, 2, 3]), spy_p=0.3)
+            t = paramlib.gen_tree(rng, rng.choice([1, 2, 2, 3]), spy_p=0.3, twins=True, replace=True)
             if "children" not in t:
                 continue
             paramlib.sanitize(t)
